@@ -8,6 +8,9 @@ import (
 	"context"
 	"database/sql"
 	"fmt"
+	"io"
+	"sort"
+	"strconv"
 	"strings"
 	"sync"
 	"time"
@@ -48,7 +51,69 @@ type parsed struct {
 }
 
 // parse runs the exported parser the controller wires for this kind of body.
-func parse(b *Batch, body []byte) *parsed {
+// segReader hands out the body in segments: a Read never crosses one of the cut offsets.
+type segReader struct {
+	data []byte
+	cuts []int // ascending
+	pos  int
+	ci   int
+	n    int // number of Read calls that returned data
+}
+
+func (s *segReader) Read(p []byte) (int, error) {
+	if s.pos >= len(s.data) {
+		return 0, io.EOF
+	}
+	for s.ci < len(s.cuts) && s.cuts[s.ci] <= s.pos {
+		s.ci++
+	}
+	end := len(s.data)
+	if s.ci < len(s.cuts) && s.cuts[s.ci] < end {
+		end = s.cuts[s.ci]
+	}
+	n := copy(p, s.data[s.pos:end])
+	s.pos += n
+	s.n++
+	return n, nil
+}
+
+// deliveryCuts turns Batch.Delivery into cut offsets.
+func deliveryCuts(b *Batch, body []byte, offs [][2]int) []int {
+	var cuts []int
+	d := b.Delivery
+	switch {
+	case d == "":
+	case d == "bytes":
+		for i := 1; i < len(body); i++ {
+			cuts = append(cuts, i)
+		}
+	case d == "half":
+		cuts = []int{len(body) / 2}
+	case strings.HasPrefix(d, "chunk"):
+		n, _ := strconv.Atoi(d[5:])
+		for i := n; n > 0 && i < len(body); i += n {
+			cuts = append(cuts, i)
+		}
+	case strings.HasPrefix(d, "cut@"):
+		for _, f := range strings.Split(d[4:], ",") {
+			n, _ := strconv.Atoi(f)
+			cuts = append(cuts, n)
+		}
+	case strings.HasPrefix(d, "span-"):
+		for _, o := range offs {
+			if strings.Contains(d, "mids") {
+				cuts = append(cuts, (o[0]+o[1])/2)
+			}
+			if strings.Contains(d, "ends") {
+				cuts = append(cuts, o[1])
+			}
+		}
+	}
+	sort.Ints(cuts)
+	return cuts
+}
+
+func parse(b *Batch, body []byte, cuts []int) *parsed {
 	var fn unmarshal.ParsingFunction
 	switch {
 	case b.Proto == "otlp":
@@ -59,7 +124,11 @@ func parse(b *Batch, body []byte) *parsed {
 		fn = unmarshal.UnmarshalZipkinJSONV2
 	}
 	p := &parsed{}
-	ch := fn(context.Background(), bytes.NewReader(body), nil)
+	var rd io.Reader = bytes.NewReader(body)
+	if b.Delivery != "" {
+		rd = &segReader{data: body, cuts: cuts}
+	}
+	ch := fn(context.Background(), rd, nil)
 	for r := range ch {
 		if r.Error != nil {
 			p.err = r.Error
